@@ -30,8 +30,9 @@ Proof. exact @atomic_machine_linearizable. Qed.
 Print Assumptions C04_atomic_section_linearizable.
 
 (* ... which covers the single-critical-section methods of MemMapFs (Create, Open, Stat,
-   Remove, Rename, Chown, and every file I/O method under the file mutex except Readdirnames,
-   which has its own switch), whatever the shape of the other methods: *)
+   Remove, Chown, and every file I/O method under the file mutex except Readdirnames, which has
+   its own switch; Rename is one section of mu, but a section for the listings through directory
+   handles only under its two switches), whatever the shape of the other methods: *)
 Theorem C04_single_section_methods_atomic : forall k c,
   ln_single_today (snd c) = true -> lin_atomic_op lin_step (ln_sec k) LnStart c.
 Proof. exact ln_single_today_atomic. Qed.
@@ -103,6 +104,43 @@ Theorem C04_refuted_openfile_trunc : forall k, sc_open_split k = false -> sc_ope
 Proof. exact refuted_openfile_trunc. Qed.
 Print Assumptions C04_refuted_openfile_trunc.
 
+(* Rename and the listings through directory handles.  A handle lists its directory under the
+   directory's mutex, not under mu, so it can run INSIDE Rename's write-locked section of mu,
+   between two holds of directory mutexes.  In both witnesses the goroutine that runs between
+   Rename's sections uses nothing but such handles (w8/w9_lister_handles_only).
+   (i) /d/x -> /e/x, the entry leaves /d and enters /e under separate holds: a listing of /d and
+   then one of /e show x in neither *)
+Theorem C04_refuted_rename_two_parents : forall k, sc_rename_parents_split k = true ->
+  Forall (fun c : lop => op_handle_of (snd c) <> None) (nth 1 w8_progs []) /\
+  lin_quiescent (ln_run k w8_s0 w8_progs w8_sched) = true /\
+  map (fun x => (lc_op x, lc_res x)) (lg_lin (ln_run k w8_s0 w8_progs w8_sched)) =
+    [((None, HReaddirnames 10 (-1)), RNames [] None); ((None, HReaddirnames 11 (-1)), RNames [] None);
+     ((None, Rename w_dx w_ex), ROk)] /\
+  exists hist fin, produced_by_sections k w8_s0 hist fin /\
+    lin_check_mem w8_s0 hist fin = false /\ ~ linearizable lin_step lin_obs w8_s0 hist fin.
+Proof.
+  intros k Hk. split; [exact w8_lister_handles_only|].
+  split.
+  - destruct k as [a b c d e f0 g h0 i j]; cbn [sc_rename_parents_split] in Hk; subst i.
+    destruct a, b, c, d, e, f0, g, h0, j; vm_compute; reflexivity.
+  - split; [now apply refuted_rename_two_parents_results|now apply refuted_rename_two_parents].
+Qed.
+Print Assumptions C04_refuted_rename_two_parents.
+
+(* (ii) /d -> /g, the children of /d are unregistered and registered again one by one: a listing
+   of the directory through a handle shows one child of two *)
+Theorem C04_refuted_rename_dir_children : forall k, sc_rename_kids_split k = true ->
+  Forall (fun c : lop => op_handle_of (snd c) <> None) (nth 1 w9_progs []) /\
+  map (fun x => (lc_op x, lc_res x)) (lg_lin (ln_run k w9_s0 w9_progs (w9_sched k))) =
+    [((None, HReaddirnames 10 (-1)), RNames [[121%N]] None); ((None, Rename w_d w_g), ROk)] /\
+  exists hist fin, produced_by_sections k w9_s0 hist fin /\
+    lin_check_mem w9_s0 hist fin = false /\ ~ linearizable lin_step lin_obs w9_s0 hist fin.
+Proof.
+  intros k Hk. split; [exact w9_lister_handles_only|].
+  split; [now apply refuted_rename_dir_children_results|now apply refuted_rename_dir_children].
+Qed.
+Print Assumptions C04_refuted_rename_dir_children.
+
 (* THE CODE AS IT IS TODAY (constants regenerated from memmap.go on every check): for each of the
    three methods, either its refutation applies, or — once it is repaired — it belongs to the
    fragment of C04_sections_linearizable.  The same proof script covers both states. *)
@@ -131,6 +169,23 @@ Proof.
   - intros. cbn [ln_lin_ok]. now rewrite E.
 Qed.
 Print Assumptions C04_today_readdirnames.
+
+Theorem C04_today_rename :
+  if sc_rename_parents_split ln_cfg_today
+  then exists hist fin, produced_by_sections ln_cfg_today w8_s0 hist fin /\
+         ~ linearizable lin_step lin_obs w8_s0 hist fin
+  else if sc_rename_kids_split ln_cfg_today
+  then exists hist fin, produced_by_sections ln_cfg_today w9_s0 hist fin /\
+         ~ linearizable lin_step lin_obs w9_s0 hist fin
+  else forall p q, ln_lin_ok ln_cfg_today (Rename p q) = true.
+Proof.
+  destruct (sc_rename_parents_split ln_cfg_today) eqn:E.
+  - destruct (refuted_rename_two_parents _ E) as (h & f & H1 & _ & H3). now exists h, f.
+  - destruct (sc_rename_kids_split ln_cfg_today) eqn:E2.
+    + destruct (refuted_rename_dir_children _ E2) as (h & f & H1 & _ & H3). now exists h, f.
+    + intros. cbn [ln_lin_ok]. now rewrite E, E2.
+Qed.
+Print Assumptions C04_today_rename.
 
 Theorem C04_today_mkdir :
   if sc_mkdir_setmode ln_cfg_today
@@ -191,10 +246,18 @@ Print Assumptions C04_today_readdirnames_locked.
 
 (* hence EVERY history of the section machine of today's code — any goroutines, calls, schedule —
    is linearizable *)
+(* Rename holds both parents across the move and re-keys the children of a directory under one
+   hold of its mutex *)
+Theorem C04_today_rename_directories_held :
+  sc_rename_parents_split ln_cfg_today = false /\ sc_rename_kids_split ln_cfg_today = false.
+Proof. split; reflexivity. Qed.
+Print Assumptions C04_today_rename_directories_held.
+
 Theorem C04_today_all_one_section :
   sc_open_split ln_cfg_today = false /\ sc_mkdir_setmode ln_cfg_today = false /\ sc_rmall_split ln_cfg_today = false /\
   sc_chmod_split ln_cfg_today = false /\ sc_chtimes_split ln_cfg_today = false /\
-  sc_open_finish ln_cfg_today = false /\ sc_rdnames_split ln_cfg_today = false.
+  sc_open_finish ln_cfg_today = false /\ sc_rdnames_split ln_cfg_today = false /\
+  sc_rename_parents_split ln_cfg_today = false /\ sc_rename_kids_split ln_cfg_today = false.
 Proof. repeat split; reflexivity. Qed.
 Print Assumptions C04_today_all_one_section.
 
@@ -231,18 +294,19 @@ Example C04_cfg_today_value :
   (sc_open_split ln_cfg_today, sc_open_setmode ln_cfg_today, sc_mkdir_setmode ln_cfg_today, sc_rmall_split ln_cfg_today)
   = (Z.eqb lin_openfile_split 1, Z.eqb lin_openfile_setmode 1, Z.eqb lin_mkdir_setmode 1, negb (Z.eqb lin_removeall_locks 1))
   /\ (sc_chmod_split ln_cfg_today, sc_chtimes_split ln_cfg_today) = (negb (Z.eqb lin_chmod_locks 1), negb (Z.eqb lin_chtimes_locks 1))
-  /\ (sc_open_finish ln_cfg_today, sc_rdnames_split ln_cfg_today) = (Z.eqb lin_openfile_finish_outside 1, Z.eqb lin_readdirnames_outside 1).
+  /\ (sc_open_finish ln_cfg_today, sc_rdnames_split ln_cfg_today) = (Z.eqb lin_openfile_finish_outside 1, Z.eqb lin_readdirnames_outside 1)
+  /\ (sc_rename_parents_split ln_cfg_today, sc_rename_kids_split ln_cfg_today) = (Z.eqb lin_rename_parents_apart 1, Z.eqb lin_rename_children_apart 1).
 Proof. repeat split; reflexivity. Qed.
 
 (* the excl-create witness: both calls return a handle; run one after the other the second
    gets "exists" *)
 Example C04_excl_witness_two_winners :
-  map lc_res (lg_lin (ln_run (mkCfg true true true true true true true true) lin_init w1_progs w1_sched)) = [RHandle 0; RHandle 0]
+  map lc_res (lg_lin (ln_run (mkCfg true true true true true true true true true true) lin_init w1_progs w1_sched)) = [RHandle 0; RHandle 0]
   /\ snd (lin_replay lin_step lin_init (concat w1_progs)) = [RHandle 0; RErr (EW KExist)].
 Proof. split; vm_compute; reflexivity. Qed.
 
 Example C04_mkdir_witness :
-  map (fun x => (lc_op x, lc_res x)) (lg_lin (ln_run (mkCfg true true true true true true true true) lin_init w2_progs w2_sched)) =
+  map (fun x => (lc_op x, lc_res x)) (lg_lin (ln_run (mkCfg true true true true true true true true true true) lin_init w2_progs w2_sched)) =
   [((None, Remove w_d), ROk); ((None, Mkdir w_d 493), RErr (EW KNotExist))].
 Proof. vm_compute. reflexivity. Qed.
 
@@ -255,15 +319,15 @@ Proof. split; vm_compute; reflexivity. Qed.
 
 (* three concurrent Mkdir of /d under an interleaved schedule: exactly one ok *)
 Example C04_mkdir_three :
-  cnt mk_won (lg_lin (ln_run (mkCfg true true true true true true true true) lin_init (mk_progs w_d [448; 493; 511])
+  cnt mk_won (lg_lin (ln_run (mkCfg true true true true true true true true true true) lin_init (mk_progs w_d [448; 493; 511])
       [0; 1; 2; 0; 1; 2; 2; 1; 0; 0; 1; 2; 0; 1; 2; 0; 1; 2]%nat)) = 1%nat
-  /\ lin_quiescent (ln_run (mkCfg true true true true true true true true) lin_init (mk_progs w_d [448; 493; 511])
+  /\ lin_quiescent (ln_run (mkCfg true true true true true true true true true true) lin_init (mk_progs w_d [448; 493; 511])
       [0; 1; 2; 0; 1; 2; 2; 1; 0; 0; 1; 2; 0; 1; 2; 0; 1; 2]%nat) = true.
 Proof. split; vm_compute; reflexivity. Qed.
 
 (* the Readdirnames witness: the listing is ["g"]; one after the other it is ["x"] or [] *)
 Example C04_readdirnames_witness :
-  map (fun x => (lc_op x, lc_res x)) (lg_lin (ln_run (mkCfg false false false false false false false true) w6_s0 w6_progs w6_sched)) =
+  map (fun x => (lc_op x, lc_res x)) (lg_lin (ln_run (mkCfg false false false false false false false true false false) w6_s0 w6_progs w6_sched)) =
     [((None, Rename w_dx w_g), ROk); ((None, HReaddirnames 10 (-1)), RNames [[103%N]] None)]
   /\ snd (lin_replay lin_step w6_s0 (concat w6_progs)) = [RNames [[120%N]] None; ROk]
   /\ snd (lin_replay lin_step w6_s0 (concat (rev w6_progs))) = [ROk; RNames [] None].
@@ -281,7 +345,7 @@ Proof. exact ln_rdn_back_to_back. Qed.
 (* the OpenFile witness: Chtimes ok, OpenFile a handle, /f ends with time "now"; one after the
    other the file keeps Chtimes' 1000, or Chtimes does not find it *)
 Example C04_openfile_trunc_witness :
-  map e_mtime (lin_obs (lg_st (ln_run (mkCfg false false false false false false true false) lin_init w7_progs w7_sched))) = [BIG; BIG]
+  map e_mtime (lin_obs (lg_st (ln_run (mkCfg false false false false false false true false false false) lin_init w7_progs w7_sched))) = [BIG; BIG]
   /\ map e_mtime (lin_obs (fst (lin_replay lin_step lin_init (concat w7_progs)))) = [BIG; 1000]
   /\ snd (lin_replay lin_step lin_init (concat (rev w7_progs))) = [RErr (EW KNotExist); RHandle 0].
 Proof. repeat split; vm_compute; reflexivity. Qed.
@@ -300,11 +364,35 @@ Definition C04_alone (k : seccfg) (p : str) (flag : Z) :=
   (map lc_res (lg_lin c), lin_obs (lg_st c), lin_quiescent c).
 Example C04_openfile_split_alone_is_sequential :
   forallb (fun flag =>
-    let a := C04_alone (mkCfg false false false false false false true false) w_f flag in
+    let a := C04_alone (mkCfg false false false false false false true false false false) w_f flag in
     let b := C04_alone ln_cfg_atomic w_f flag in
-    let a' := C04_alone (mkCfg false false false false false false true false) w_g flag in
+    let a' := C04_alone (mkCfg false false false false false false true false false false) w_g flag in
     let b' := C04_alone ln_cfg_atomic w_g flag in
     lin_list_eqb lin_res_eqb (fst (fst a)) (fst (fst b)) && lin_obs_eqb (snd (fst a)) (snd (fst b)) && snd a && snd b &&
     lin_list_eqb lin_res_eqb (fst (fst a')) (fst (fst b')) && lin_obs_eqb (snd (fst a')) (snd (fst b')) && snd a' && snd b')
     C04_flag_words = true.
+Proof. vm_compute. reflexivity. Qed.
+
+(* a Rename whose directory changes are separate sections, run ALONE, does what the specification
+   does: same result and same final tree, for a file moved between two directories, a directory
+   with children, a rename onto an existing name, onto a missing parent (ancestors are created),
+   of a missing name, onto itself *)
+Definition C04_ren_setup : list lop :=
+  [(None, Mkdir w_d 493); (None, Mkdir w_e 493); (Some 1%nat, Create w_dx); (Some 2%nat, Create w_dy); (Some 3%nat, Create w_f);
+   (None, Mkdir (w_d ++ [47; 122]%N) 493); (Some 4%nat, Create (w_d ++ [47; 122; 47; 119]%N))].
+Definition C04_ren_s0 : lstate := fst (lin_replay lin_step lin_init C04_ren_setup).
+Definition C04_ren_alone (k : seccfg) (pq : str * str) :=
+  let c := ln_run k C04_ren_s0 [[(None, Rename (fst pq) (snd pq)); (Some 20%nat, Open w_g)]] (repeat 0%nat 40) in
+  (map lc_res (lg_lin c), lin_obs (lg_st c), lin_quiescent c).
+Example C04_rename_split_alone_is_sequential :
+  forallb (fun pq =>
+    forallb (fun k =>
+      let a := C04_ren_alone k pq in
+      let b := C04_ren_alone ln_cfg_atomic pq in
+      lin_list_eqb lin_res_eqb (fst (fst a)) (fst (fst b)) && lin_obs_eqb (snd (fst a)) (snd (fst b)) && snd a && snd b)
+      [mkCfg false false false false false false false false true false;
+       mkCfg false false false false false false false false false true;
+       mkCfg false false false false false false false false true true])
+    [(w_dx, w_ex); (w_d, w_g); (w_dx, w_dy); (w_f, w_g ++ [47; 113; 47; 102]%N); (w_g, w_f); (w_d, w_d); (w_d, w_e ++ [47; 100]%N);
+     (w_f, w_dx ++ [47; 102]%N)] = true.
 Proof. vm_compute. reflexivity. Qed.
